@@ -776,8 +776,9 @@ func runCheck(prop, tier string, budgetMs, nWorkers int) int {
 
 	// process deaths: confirm each by re-running that single index alone
 	type deathCase struct {
-		i      int
-		detail string
+		i        int
+		detail   string
+		caseJSON json.RawMessage // the generated case, written by the worker before it ran it
 	}
 	var confirmedDeaths []deathCase
 	seenDeath := map[int]bool{}
@@ -795,12 +796,17 @@ func runCheck(prop, tier string, budgetMs, nWorkers int) int {
 		}
 		seenDeath[i] = true
 		out := filepath.Join(tmp, fmt.Sprintf("death-%d.jsonl", i))
+		caseFile := filepath.Join(tmp, fmt.Sprintf("death-%d.case.json", i))
 		env := workerEnv("SIM_MODE=explore", "SIM_ENGINE="+info.Engine, "SIM_TIER="+tier,
 			"SIM_BASE_SEED="+strconv.FormatUint(base, 10), "SIM_FROM="+strconv.Itoa(i), "SIM_STRIDE=1", "SIM_COUNT=1",
-			"SIM_BUDGET_MS=120000", "SIM_OUT="+out)
+			"SIM_BUDGET_MS=120000", "SIM_OUT="+out, "SIM_DUMP_CASE="+caseFile)
 		ex := runWorker(env, 5*time.Minute)
 		if !ex.done && !ex.timedOut {
-			confirmedDeaths = append(confirmedDeaths, deathCase{i, firstLines(ex.stderr, 60)})
+			dc := deathCase{i: i, detail: firstLines(ex.stderr, 60)}
+			if cb, err := os.ReadFile(caseFile); err == nil {
+				dc.caseJSON = cb
+			}
+			confirmedDeaths = append(confirmedDeaths, dc)
 		}
 	}
 
@@ -842,6 +848,9 @@ func runCheck(prop, tier string, budgetMs, nWorkers int) int {
 		// replay file for a process death: the generated case is a function of (base seed, index)
 		rf := map[string]any{"property": prop, "class": "process_death", "sig": sig, "detail": d.detail,
 			"process_death": map[string]any{"engine": info.Engine, "base_seed": base, "index": d.i, "tier": tier}}
+		if d.caseJSON != nil {
+			rf["generated_case"] = d.caseJSON // for the reader; replay regenerates it from (base seed, index)
+		}
 		b, _ := json.MarshalIndent(rf, "", " ")
 		path := filepath.Join(verifDir, "replays", fmt.Sprintf("%s-death-%d-%d.json", prop, base, d.i))
 		os.WriteFile(path, b, 0o644)
